@@ -1,6 +1,6 @@
 (* C02 — non-vacuity: concrete programs meeting the theorems' hypotheses. *)
 From Coq Require Import List String ZArith Bool.
-From V.C02 Require Import Lang Model Spec Wf Proofs Slots ProofsSlots.
+From V.C02 Require Import Lang Model Spec Wf Proofs Slots ProofsSlots SlotModel.
 Import ListNotations.
 Open Scope string_scope.
 
@@ -102,7 +102,9 @@ Proof. reflexivity. Qed.
    them: parameters first, then first occurrence *)
 Example ex_tables : map fun_vars (funcs ex_prog) = [["n"]; ["step"; "n"]; ["limit"; "i"; "acc"; "k"; "v"]].
 Proof. vm_compute. reflexivity. Qed.
-Example ex_covers : forallb (fun d => covers (fun_vars d) (fbody d)) (funcs ex_prog) = true.
+Example ex_covers : cov_prog ex_prog = true.
+Proof. vm_compute. reflexivity. Qed.
+Example ex_slots : run_slots no_catch 200 ex_prog = run_impl no_catch 200 ex_prog.
 Proof. vm_compute. reflexivity. Qed.
 Example ex_vrel : vrel ["a"; "b"] [("b", VInt 2)] [VNull; VInt 2].
 Proof. split; [reflexivity|]. intros x. simpl. destruct (String.eqb x "a") eqn:A; simpl.
